@@ -129,8 +129,8 @@ def compare_fresh(r, rf):
             if abs(a - b) > c10.REL_TOL * max(abs(a), abs(b)):
                 return 'coset probability {} is {!r}, the fresh object\'s {!r}'.format(i, float(a), float(b))
             res = 'close'
-    if not np.array_equal(r['out'], rf['out']):
-        # an exact tie between two cosets is resolved by list order in every TN decoder: deterministic
+    if res == 'same' and not np.array_equal(r['out'], rf['out']):
+        # identical coset probabilities and representatives: the arg-max (ties resolved by list order) is the same
         return 'decode result differs from the fresh object\'s'
     return res
 
@@ -138,7 +138,12 @@ def compare_fresh(r, rf):
 def cases(ctx):
     c10 = _c10()
     rng = ctx.rng
-    for fam, sizes, n_dists, n_cfgs, exact in plan(ctx):
+    P = plan(ctx)
+    if not ctx.quick():   # three recipes per pair whose exact values are cheap
+        def generators(fam, s):
+            return 2 * s[0] * s[1] - s[0] - s[1] if fam == 'planar' else s[0] * s[1] - 1 if fam == 'rotatedplanar' else 6
+        P = [p for p in P for _ in range(3 if (p[4] and max(generators(p[0], s) for s in p[1]) <= 14) else 1)]
+    for fam, sizes, n_dists, n_cfgs, exact in P:
         h = make_history(ctx, fam, sizes, n_dists)
         cfgs = c10.all_configs(fam)
         if n_cfgs is not None and n_cfgs < len(cfgs):
